@@ -556,7 +556,7 @@ class Verifier:
         # bytes_to_element/undecodable it is the other way round (2 s vs > 60 s).  When only the unguarded form proves the goal the
         # dependencies are over-approximated by ALL callee clauses assumed on the path (a larger cone: sound for the closure).
         r = z3.unknown
-        for ms in (QUICK_MS, 4 * QUICK_MS, TIMEOUT_MS):
+        for ms in (QUICK_MS // 4, QUICK_MS, 4 * QUICK_MS, TIMEOUT_MS):
             s, r = attempt(sym.abstract_nl, ms)
             if r != z3.unknown or not labs:
                 if r != z3.unknown:
